@@ -295,7 +295,9 @@ class QPSKDemodulator(BaseDemodulator):
                 min_dist_1 = self._min_distance_to_points(y, const_bit_1, noise_var)
 
                 # LLR = log(P(bit=0|y)/P(bit=1|y))
-                llrs[..., bit_idx] = min_dist_1 - min_dist_0
+                # _min_distance_to_points returns max(-d^2 / noise_var) = -min(d^2) / noise_var, so
+                # log P(bit=0)/P(bit=1) ~ (min d1^2 - min d0^2) / noise_var is value_0 - value_1
+                llrs[..., bit_idx] = min_dist_0 - min_dist_1
 
             # Reshape to final sequence
             return llrs.reshape(*batch_shape, -1)
